@@ -103,13 +103,21 @@ theorem format_refines (i : Inp) (herr : 0 < i.err) (hax : 0 ≤ i.ax) (herrs : 
     simp only [hide, Gen.fmtHide, Gen.Default.fmtHide] at hc
     obtain ⟨m, E, hs⟩ := sci_total herr 1
     have hss : sciSplit i V.err 1 = (m, E) := by simp [sciSplit, val, herr.ne', hs]
-    simp [Fmt.format, hk, shownErr, shownX, hh, hc, hs, hss, outOf, val, negOf, Gen.fmtDigits, Gen.Default.fmtDigits]
+    first
+    | (simp [Fmt.format, hk, shownErr, shownX, hh, hc, hs, hss, outOf, val, negOf, Gen.fmtDigits, Gen.Default.fmtDigits]; done)
+    | -- a body that decides the rule by nested tests (if / elif / else) repeats the formatting in every branch
+      (by_cases h0 : k = 0 <;> by_cases hm1 : k = -1 <;> by_cases h1 : k = 1 <;> cases hl : i.lt <;>
+        simp_all [Fmt.format, shownErr, shownX, outOf, val, negOf, Gen.fmtDigits, Gen.Default.fmtDigits] <;> (try omega))
   · -- the exponent is shown: both are rescaled by 10**k, in two steps
     have hh : hide i k = false := by simpa using hh
     have hc := hh
     simp only [hide, Gen.fmtHide, Gen.Default.fmtHide] at hc
     obtain ⟨m, E, hs⟩ := sci_total herrs 1
     have hss : sciSplit i (V.serr k) 1 = (m, E) := by simp [sciSplit, val, hk, herrs.ne', hs]
-    simp [Fmt.format, hk, shownErr, shownX, hh, hc, hs, hss, outOf, val, negOf, scale, hadd, Gen.fmtDigits,
-      Gen.Default.fmtDigits]
+    first
+    | (simp [Fmt.format, hk, shownErr, shownX, hh, hc, hs, hss, outOf, val, negOf, scale, hadd, Gen.fmtDigits,
+        Gen.Default.fmtDigits]; done)
+    | (by_cases h0 : k = 0 <;> by_cases hm1 : k = -1 <;> by_cases h1 : k = 1 <;> cases hl : i.lt <;>
+        simp_all [Fmt.format, shownErr, shownX, outOf, val, negOf, scale, Gen.fmtDigits, Gen.Default.fmtDigits] <;>
+        (try omega))
 end Fmt
